@@ -4,14 +4,19 @@ PROP = dict(
     title="Values are rendered as text exactly as documented",
     lean_module="AbraProofs.Properties.C28",
     required_theorems=["C28_str_eq_render", "C28_helper_eq_join", "C28_format_append_spec", "C28_print_spec",
-                       "C28_array_shape", "C28_string_verbatim"],
+                       "C28_array_shape", "C28_string_verbatim", "C28_format_chain_spec", "C28_rendering_is_pure"],
     harness_bin="c28",
     mismatch_is_violation=True,
     rule="directed: 14 boundary ints (incl. MIN, MAX, +-2^32), 14 strings (empty, separators ', ' '[ ]' '(1, 2)', newline, tab, quote, backslash, "
          "non-ASCII), bools, nil, each alone and inside array (0/1/3 elements, nested with empty inner arrays), option, result (ok and err side), "
          "2/3/4-tuples; ints and strings also as literal operands of `..` (inlined str); random: 1500 (quick) / 20000 (thorough) values of random nested "
          "types of depth <= 3 / 4 (array, tuple 2-4, option, result over int/bool/void/string, arrays of 0-6 elements), rendered through print, println, "
-         "ToString.str, `\"<< \" .. v`, `v .. \" >>\"` and `v .. w`; the printed bytes are compared with the Lean model of the prelude's ToString code and "
+         "ToString.str, `\"<< \" .. v`, `v .. \" >>\"` and `v .. w`; purity stream: 5 minimal + 400 (quick) / 4000 (thorough) programs that build 2-4 strings at run time "
+         "(results of `..`, int and bool conversions, strings built from other run-time strings incl. as LEFT operand), share the same string object "
+         "several times inside one value and between values (array elements, tuple components, option/result payloads, struct fields), render every "
+         "value and every string at least three times by different routes (println, ToString.str, print, `\"<\" .. v .. \">\"`, `v .. w`, `w .. v`, "
+         "`v .. \"!\"`), compare each string and each value with `==` against a separately built twin and render the never-rendered twins last; "
+         "the printed bytes are compared with the Lean model of the prelude's ToString code and "
          "with the documented format written in Rust; non-trivial = the value has a container or the text is not a plain decimal",
     nontrivial=lambda req, imp: any(t in req.split() for t in ("A", "T", "SOME", "NONE", "OK", "ERR", "S", "N", "B")),
     trusted_base=COMMON_TB + [
@@ -24,7 +29,8 @@ PROP = dict(
                  "the documentation is silent about the empty array; the code prints `[  ]` (two spaces) and the specification follows the code"],
     design_ref="DESIGN.md §6 C28",
     level_text="Theorem over all values of the nested built-in types (any depth and size): the prelude's ToString code, as modelled, produces exactly "
-               "the documented text (`render`), incl. array_to_string_helper = ', '-separated join, `..` = concatenation of the two texts, print/println. "
+               "the documented text (`render`), incl. array_to_string_helper = ', '-separated join, `..` = concatenation of the two texts, print/println, and any sequence of rendering "
+               "statements over the same values prints statement by statement the documented text of its operands (rendering is pure). "
                "The model is tied to /repo on every run by rendering random nested values on the real VM through print, println, str and `..`.",
     level_note="The step from prelude.abra to the model is by correspondence. The empty array renders as `[  ]`; the spec follows the code there.",
     technique="Lean 4 theorem by mutual structural induction over nested values + differential correspondence against the real prelude on the real VM + documented format re-stated in Rust",
